@@ -30,6 +30,13 @@ def named(name):
     if name == "polar2w":  # spectator + 3 mobile sites in two Wyckoff sets, polar
         return crystal.Crystal(np.diag([1., 1., 1.3]),
                                [[_a(0, 0, 0)], [_a(.5, .5, .4), _a(0, .5, .17), _a(.5, 0, .17)]]), 1
+    if name == "pmm2-3w":  # orthorhombic polar cell, three Wyckoff sets of mobile sites on mirror planes (>= 3 vector-basis functions)
+        return crystal.Crystal(np.diag([1., 1.15, 1.3]),
+                               [[_a(0, 0, 0)], [_a(.5, .5, .37), _a(0, .5, .12), _a(.5, 0, .21)]]), 1
+    if name == "wurtzite-int":  # hexagonal polar host with two inequivalent interstitial sets
+        c = crystal.Crystal.HCP(1., 1.63)
+        hostb = [c.basis[0][0], c.basis[0][1]]
+        return crystal.Crystal(c.lattice, [hostb, [_a(1. / 3, 2. / 3, 0.63), _a(2. / 3, 1. / 3, 0.13), _a(0, 0, 0.30), _a(0, 0, 0.80)]]), 1
     if name == "re3":  # 4 sites, 2 Wyckoff sets (corner + face centres of a cube edge lattice)
         return crystal.Crystal(np.eye(3), [_a(0, 0, 0), _a(.5, 0, 0), _a(0, .5, 0), _a(0, 0, .5)]), 0
     if name == "hcp-oct-tet":  # HCP host with octahedral and tetrahedral interstitials
@@ -60,7 +67,7 @@ def named(name):
 
 
 NAMES3 = ["sc", "fcc", "bcc", "hcp", "hcp-nonideal", "diamond", "b2", "tet", "ortho", "polar", "polar2w", "re3",
-          "hcp-oct-tet", "fcc-oct-tet", "bcc-tet"]
+          "hcp-oct-tet", "fcc-oct-tet", "bcc-tet", "pmm2-3w", "wurtzite-int"]
 NAMES2 = ["square", "rect", "tria", "honeycomb", "sq2w", "rect-polar2d", "oblique2d"]
 SMALL = ["square", "rect", "tria", "honeycomb", "sq2w", "rect-polar2d", "sc", "tet", "polar", "b2"]
 
@@ -172,8 +179,24 @@ def dyadic(rng, lo, hi, bits=6):
     return rng.randint(int(math.ceil(lo * s)), int(math.floor(hi * s))) / s
 
 
-def pool(rng, n, dims=(2, 3), names=None, random_frac=0.5, nchem_max=2, maxatoms=3):
-    """yield n (label, crys, chem) drawn from named lattices and random crystals"""
+def shuffled(crys, rng):
+    """the same crystal with the atoms of every species listed in a random order (Wyckoff sets then interleave:
+    sitelist() is no longer made of contiguous ascending index blocks)"""
+    basis = []
+    for atoms in crys.basis:
+        ul = [u.copy() for u in atoms]
+        rng.shuffle(ul)
+        basis.append(ul)
+    try:
+        c2 = crystal.Crystal(crys.lattice, basis, chemistry=crys.chemistry)
+    except Exception:
+        return crys
+    return c2 if (c2.N == crys.N and len(c2.G) == len(crys.G)) else crys
+
+
+def pool(rng, n, dims=(2, 3), names=None, random_frac=0.5, nchem_max=2, maxatoms=3, shuffle_frac=0.5):
+    """yield n (label, crys, chem) drawn from named lattices and random crystals; with probability shuffle_frac the
+    atoms of each species are listed in a random order"""
     names = names or ([x for x in NAMES2 if 2 in dims] + [x for x in NAMES3 if 3 in dims])
     out = 0
     tries = 0
@@ -182,12 +205,15 @@ def pool(rng, n, dims=(2, 3), names=None, random_frac=0.5, nchem_max=2, maxatoms
         if rng.random() >= random_frac:
             nm = rng.choice(names)
             crys, chem = named(nm)
+            if crys.N > 1 and rng.random() < shuffle_frac:
+                crys = shuffled(crys, rng); nm = nm + "~perm"
             yield nm, crys, chem; out += 1
         else:
             r = random_crystal(rng, rng.choice(list(dims)), maxatoms=maxatoms, nchem=rng.randint(1, nchem_max))
             if r is None: continue
             sysm, crys = r
             chem = rng.randrange(crys.Nchem)
+            if crys.N > 1 and rng.random() < shuffle_frac: crys = shuffled(crys, rng)
             yield "rand-" + sysm, crys, chem; out += 1
 
 
